@@ -18,9 +18,9 @@ EXTENDS Values, Json
 
 CONSTANT Full   \* TRUE: all entry/path combinations and bound pairs
 
-Typings == <<"int", "mal", "mixed", "iface">>
+Typings == <<"int", "mal", "mixed", "iface", "str">>
 Shapes == {[ctx |-> c, nf |-> f, var |-> v, nres |-> r, ty |-> t] :
-             c \in {0, 1}, f \in {0, 1, 2}, v \in {0, 1}, r \in {0, 1, 2}, t \in {1, 2, 3, 4}}
+             c \in {0, 1}, f \in {0, 1, 2}, v \in {0, 1}, r \in {0, 1, 2}, t \in {1, 2, 3, 4, 5}}
 
 \* declared bounds: <<>> none, <<min>>, <<min, max>>  (only legal on variadic functions)
 BoundsFull == <<<<>>, <<0>>, <<1>>, <<2>>, <<0, 0>>, <<0, 1>>, <<1, 1>>, <<1, 2>>, <<0, 2>>, <<2, 3>>, <<1, 3>>>>
@@ -43,9 +43,10 @@ ParamType(sh, k) ==
   LET t == Typings[sh.ty] IN
     IF t = "int" THEN "int"
     ELSE IF t = "mal" THEN "mal"
-    ELSE IF k = 1 /\ sh.nf >= 1 THEN (IF t = "mixed" THEN "int" ELSE "error") ELSE "mal"
+    ELSE IF k = 1 /\ sh.nf >= 1 THEN (IF t = "mixed" THEN "int" ELSE IF t = "str" THEN "str" ELSE "error") ELSE "mal"
 \* nil is the zero value of the INTERFACE type MalType: assignable to interface{} parameters only
-Assignable(v, ty) == CASE ty = "mal" -> TRUE [] ty = "int" -> v.t = "int" [] ty = "error" -> FALSE
+\* (an int is CONVERTIBLE to a Go string, a list to a vector: assignability is what the contract says)
+Assignable(v, ty) == CASE ty = "mal" -> TRUE [] ty = "int" -> v.t = "int" [] ty = "str" -> v.t = "str" [] ty = "error" -> FALSE
 
 CountOk(sh, b, n) ==
   /\ IF sh.var = 0 THEN n = sh.nf ELSE n >= sh.nf
